@@ -197,6 +197,43 @@ let () = register "cache" (fun args ->
                  | _ -> ());
                 Some "ok"
               end
+          | [ "sweepit"; first ] ->
+              (* the sweep visits [first] first; right after its OnEvict callback another thread enumerates the cache *)
+              if first = "none" then (st := do_sweep cfg !st (nonclear_blocked ()); Some "ok")
+              else begin
+                let f = n_of_string first in
+                (match !st.s_apend, !st.s_apc with
+                 | [], AIdle ->
+                     (match mstep cfg !st (LApp (true, [ [ f ] ])) with Some s -> st := s | None -> ());
+                     let evicted s = List.exists (function ECb (None, CbEvict (_, _, v, _)) -> v <> N0 | _ -> false)
+                         (list_take (int_of_nat (length s.s_log) - before) s.s_log) in
+                     let fuel = ref 10000 in
+                     let stuck = ref false in
+                     while not (evicted !st) && not !stuck && !fuel > 0 do
+                       decr fuel;
+                       (match mstep cfg !st (LApp (false, [])) with
+                        | Some s -> if s.s_apc = AIdle && s.s_apend = [] then (st := s; stuck := true) else st := s
+                        | None -> stuck := true)
+                     done;
+                     if evicted !st then begin
+                       let rtid = nat_of_int (2000 + tid) in
+                       (match mstep cfg !st (LCall (rtid, OIter)) with
+                        | Some s -> st := run_client cfg (nat_of_int 1000) s rtid
+                        | None -> ());
+                       let vals = List.fold_left (fun acc e -> match acc, e with
+                                                   | None, ERet (t, _, RList l) when t = rtid -> Some l
+                                                   | _ -> acc) None
+                           (list_take (int_of_nat (length !st.s_log) - before) !st.s_log) in
+                       let shown = match vals with
+                         | Some l when l <> [] ->
+                             String.concat "+" (List.map (fun x -> Printf.sprintf "%Lu" x) (List.sort compare (List.map int64_of_n l)))
+                         | _ -> "-" in
+                       rw := Some (Printf.sprintf "rwset:%s:%s" first shown)
+                     end;
+                     st := settle cfg (nat_of_int 1000) !st (nonclear_blocked ())
+                 | _ -> ());
+                Some "ok"
+              end
           | [ "tick"; d ] -> st := do_time cfg !st (z_of_string d); Some "ok"
           | [ "est"; k; v ] -> st := do_est cfg !st (n_of_string k) (z_of_string v); Some ("ok " ^ v)
           | [ "estcheck"; k ] -> Some (string_of_z (!st.s_est (n_of_string k)))
